@@ -365,7 +365,78 @@ fn layout_file_rewritten(run: &Run) {
     );
 }
 
+/// "appends exactly" after longer compositions too: every assigned key after each of ~40 prepared texts (conjuncts with
+/// ro-fola / hasanta + ra at the start and inside a word, texts ending in every character class, joiners, marks) -
+/// judged, like the pairs, exactly when the independent rule table says plain appending for (text, key).
+fn keys_after_prepared_texts(run: &Run) {
+    use crate::model::{compose_step, FixedOpts};
+    let prefixes: Vec<&str> = vec![
+        "\u{0995}\u{0995}", "\u{0995}\u{09CD}\u{09B0}", "\u{0995}\u{0995}\u{09CD}\u{09B0}", "\u{09AE}\u{0995}\u{09CD}\u{09B0}", "\u{09AE}\u{09BE}\u{09A4}\u{09CD}\u{09B0}", "\u{0995}\u{09CD}\u{0995}\u{09B0}",
+        "\u{0995}\u{09B0}", "\u{09B0}\u{0995}", "\u{0985}\u{09B0}", "\u{0995}\u{09BF}\u{09B0}", "\u{0995}\u{09CD}\u{0995}", "\u{0995}\u{09BE}", "\u{0995}\u{09BF}", "\u{0995}\u{0981}", "\u{0995}\u{09BE}\u{0981}",
+        "\u{0985}", "\u{0985}\u{0995}", "\u{09E7}\u{0995}", "!\u{0995}", "\u{0995}!", "\u{0995}\u{200C}", "\u{0995}\u{200D}", "\u{200D}\u{0995}", "\u{0995}\u{09CD}\u{09AF}", "\u{09B0}\u{09CD}\u{0995}", "\u{0995}\u{0982}",
+        "\u{0995}\u{09CE}", "\u{09DF}\u{09BE}", "\u{09A1}\u{09BC}", "\u{0995}\u{09C7}", "\u{0995}\u{09CB}", "\u{0995}\u{09CC}", "\u{0995}\u{09C3}", "\u{0995}\u{09D7}", "\u{0995}\u{0964}", "\u{0995}\u{0995}\u{0995}\u{0995}\u{0995}\u{0995}\u{0995}\u{09B0}",
+    ];
+    let mut items: Vec<(Layout, usize)> = vec![];
+    for l in [Layout::Probhat, Layout::Synthetic] {
+        for p in 0..prefixes.len() {
+            items.push((l, p));
+        }
+    }
+    let lays: HashMap<Layout, HashMap<String, String>> = [Layout::Probhat, Layout::Synthetic].into_iter().map(|l| (l, load_layout_json(l))).collect();
+    run.exhaustive(
+        "every-assigned-key-after-prepared-texts",
+        &items,
+        |_| Sandbox::new(),
+        |&(layout, pi), st, sb| {
+            let inv = crate::driver::layout_inverse(layout);
+            // the text is typed one key per code point where the layout allows (fola keys for the two-code-point values)
+            let Some(ks): Option<Vec<(u16, u8)>> = prefixes[pi].chars().map(|c| inv.get(&c.to_string()).copied()).collect() else {
+                st.skip("prepared-text-not-typeable-through-this-layout");
+                return Ok(());
+            };
+            let mut opts = Opts::parse("D");
+            opts.layout = layout;
+            let ctx = Ctx::new(opts, sb).map_err(|p| Failure::new(panic_kind(&p), p.to_string(), json!({})))?;
+            let lay = &lays[&layout];
+            let off = FixedOpts { vowel: false, chandra: false, kar: false, reph: false };
+            for k in &keys().keys {
+                for m in [0u8, 2] {
+                    let Some(v) = layout_value(lay, k, m & 2 != 0, false) else { continue };
+                    let case = || json!({"after_prepared_text": {"layout": format!("{layout:?}"), "text": prefixes[pi], "code": k.code, "modifier": m}});
+                    let pf = |p: crate::driver::PanicInfo| Failure::new(panic_kind(&p), p.to_string(), case());
+                    ctx.finish().map_err(pf)?;
+                    let mut shown = String::new();
+                    for (c, md) in &ks {
+                        shown = ctx.key(*c, *md, 0).map_err(pf)?.text;
+                    }
+                    // what the prepared keys composed is C12's business; the key under test is judged against what is shown
+                    let (_, want) = compose_step(&shown, &v, off);
+                    let plain = format!("{shown}{v}");
+                    if want.as_deref() != Some(plain.as_str()) {
+                        st.skip("key-after-prepared-text-rewritten-by-an-always-on-rule-or-open-class (C12)");
+                        continue;
+                    }
+                    let r = ctx.key(k.code, m, 0).map_err(pf)?;
+                    st.evals(1);
+                    if r.text != plain {
+                        return Err(Failure::new(
+                            "wrong-text-after-a-prepared-text",
+                            format!("{layout:?}: after {shown:?} the key {} (modifier {m}) with the assignment {v:?} gives {:?}, the layout file says {plain:?}", k.name, r.text),
+                            case(),
+                        ));
+                    }
+                }
+            }
+            ctx.finish().map_err(|p| Failure::new(panic_kind(&p), p.to_string(), json!({})))?;
+            st.label("keys-after-prepared-texts");
+            st.nontrivial(hash_of(&("prepared", layout, pi)), || json!({"layout": format!("{layout:?}"), "prepared_text": prefixes[pi]}));
+            Ok(())
+        },
+    );
+}
+
 pub fn run(run: &Run) {
+    keys_after_prepared_texts(run);
     layout_file_rewritten(run);
     helpers_switched_off(run);
     after_layout_switch(run);
@@ -472,6 +543,29 @@ fn after_layout_switch(run: &Run) {
 }
 
 pub fn replay(_run: &Run, case: &Value) -> Result<(), Failure> {
+    if let Some(a) = case.get("after_prepared_text") {
+        let layout = if a["layout"].as_str() == Some("Synthetic") { Layout::Synthetic } else { Layout::Probhat };
+        let inv = crate::driver::layout_inverse(layout);
+        let text = a["text"].as_str().unwrap_or_default();
+        let (code, m) = (a["code"].as_u64().unwrap_or(0) as u16, a["modifier"].as_u64().unwrap_or(0) as u8);
+        let ks: Vec<(u16, u8)> = text.chars().filter_map(|c| inv.get(&c.to_string()).copied()).collect();
+        let sb = Sandbox::new();
+        let mut opts = Opts::parse("D");
+        opts.layout = layout;
+        let pf = |p: crate::driver::PanicInfo| Failure::new(panic_kind(&p), p.to_string(), case.clone());
+        let ctx = Ctx::new(opts, &sb).map_err(pf)?;
+        let mut shown = String::new();
+        for (c, md) in &ks {
+            shown = ctx.key(*c, *md, 0).map_err(pf)?.text;
+        }
+        let v = keys().by_code(code).and_then(|k| layout_value(&load_layout_json(layout), k, m & 2 != 0, false)).unwrap_or_default();
+        let r = ctx.key(code, m, 0).map_err(pf)?;
+        let plain = format!("{shown}{v}");
+        if r.text != plain {
+            return Err(Failure::new("wrong-text-after-a-prepared-text", format!("after {shown:?}: got {:?}, the layout file says {plain:?}", r.text), case.clone()));
+        }
+        return Ok(());
+    }
     if case.get("layout_file_rewritten").is_some() {
         return layout_file_rewritten_case(&mut crate::runner::Stats::new(), &Sandbox::new());
     }
